@@ -546,10 +546,12 @@ func checkC19(c *core.Ctx) {
 	}
 	// a written line is the printed form of a constant and is read back by parsing it: the two printing obligations
 	// on which that rests for the kinds a line-level model cannot see
-	c.Rule("ORDABS.printed-constants-reload", "what a line holds must read back to the constant that was written: FormatFloat64 yields a FLOAT token with the same bits for integral, large, tiny and negative floats, Escape / Unescape round-trip every text and byte string over an alphabet with the boundary runes (U+10FFFF, around the surrogates), and ast.Map / ast.Struct rebuild one constant from the same entries in every supply order, also for keys that agree in hash and Symbol field (obligations shared with C09 and C08)", 3)
+	c.Rule("ORDABS.printed-constants-reload", "what a line holds must read back to the constant that was written: FormatFloat64 yields a FLOAT token with the same bits for integral, large, tiny and negative floats, functional.EvalApplyFn rebuilds fn:map / fn:struct expressions keeping distinct keys whose hashes collide, Escape / Unescape round-trip every text and byte string over an alphabet with the boundary runes (U+10FFFF, around the surrogates), and ast.Map / ast.Struct rebuild one constant from the same entries in every supply order, also for keys that agree in hash and Symbol field (obligations shared with C09 and C08)", 3)
 	c.Under("ORDABS.printed-constants-reload", []string{rC09Float, rC09Lex}, func() { c09Float(c, readGrammar(c, rC09Lex)) })
 	c.Under("ORDABS.printed-constants-reload", []string{rC08Order}, func() { c08OrderFnv(c) })
 	c.Under("ORDABS.printed-constants-reload", []string{rC09Esc, rC09Lex}, func() { c09Escape(c, readGrammar(c, rC09Lex)) })
+	// a map or struct column is read back by evaluating its fn:map / fn:struct expression
+	c.Under("ORDABS.printed-constants-reload", []string{rC08Eval}, func() { c08EvalBoth(c) })
 }
 
 func c19Kinds(c *core.Ctx, r *c19Rig) {
